@@ -19,7 +19,16 @@ Proof. intros v Hd. split; [apply canon_idem; auto|]. split; [apply bytes_unchan
 (* the file written is itself in canonical form: parsing it and serializing again gives the same bytes *)
 Theorem C08_file_is_canonical : forall v b, jdom v = true -> canonserialize v = Ok b ->
   exists v', load_bytes b = Some v' /\ canonserialize v' = Ok b.
-Proof. intros v b Hd Hs. destruct (ser_fixpoint v b Hd Hs) as (v' & H1 & H2 & _). exists v'. auto. Qed.
+Proof.
+  intros v b Hd Hs. destruct (ser_fixpoint v b Hd Hs) as (v' & H1 & H2 & _). exists v'. split; [|exact H2].
+  unfold canonserialize in Hs. rewrite ser_pser in Hs by exact Hd. injection Hs as <-.
+  unfold load_bytes. rewrite (load_file_canonical v Hd). rewrite (parse_pser v Hd) in H1. exact H1.
+Qed.
+
+(* the byte layer of json.load (encoding guess, byte-order mark, UTF-8 decoding with surrogatepass) is the identity on what the
+   library writes: canonical text is ASCII without NUL *)
+Theorem C08_load_file_canonical : forall v, jdom v = true -> load_file (pser 0 v) = Ok (canon v).
+Proof. exact load_file_canonical. Qed.
 
 (* any number of write/load cycles *)
 Theorem C08_cycles_stable : forall n v, jdom v = true -> cycles (S n) v = Ok (canon v).
@@ -155,6 +164,7 @@ Proof. reflexivity. Qed.
 Print Assumptions C08_load_write.
 Print Assumptions C08_loaded_is_same_value.
 Print Assumptions C08_file_is_canonical.
+Print Assumptions C08_load_file_canonical.
 Print Assumptions C08_cycles_stable.
 Print Assumptions C08_persist_envelope.
 Print Assumptions C08_persist_keeps_verdict.
